@@ -64,6 +64,21 @@ def explore_scenario(h, desc, tier, profile=False):
     res = dict(desc=desc, paths=0, decisions=0, obligations=0, identity=0, solver=0, structural=0, failures=[],
                inconclusive=[], unknown_branches=0, truncated=False, solver_time=0.0, validated=0,
                errors=[], functions=[], stubs=[], cut_paths=0)
+    if desc.get("concrete_only"):
+        # scenarios without symbolic inputs (purity / structural checks on concrete data): run once on the real float64 code
+        Mc, err = run_concrete(h, desc, {})
+        stubs.install()
+        res.update(paths=1, obligations=Mc.n_obl, structural=Mc.n_obl, validated=1 if not (err or Mc.failures) else 0)
+        hits = list(Mc.failures)
+        if err and err[0] == "exception":
+            hits.append(mode.Failure("exception", (desc.get("family", "") + ":exception:" + err[1].split(":")[0]).replace(" ", "_"), err[1] + "\n" + (err[2] if len(err) > 2 else ""), {}, kind="exception"))
+        for g in hits:
+            rec = g.to_json()
+            rec["replay"] = "reproduced"
+            rec["reproduced"] = dict(values={}, label=g.label, key=g.key, detail=str(g.detail)[:1500])
+            res["failures"].append(rec)
+        res["wall"] = time.time() - t0
+        return res
     M = mode.SymMode(obligation_timeout_ms=10000 if tier == "quick" else 60000)
     M.key_prefix = desc.get("family", "") + ":"
     stubs.install()
